@@ -10,7 +10,7 @@ quara/objects/qoperation.py)
 Typed kernels (`Kmat`, `Mat.kron`, `kronVec`, `tensorHsHs`) carry their sizes in the type; the functions
 whose sizes are *computed at run time* in the code (`_left_permutation_matrix`, `calc_permutation_matrix`)
 work on `DMat` = a matrix packed with its dimensions, and matrix products check shapes exactly where numpy
-raises.  The head/tail identity sizes of `_left_permutation_matrix` are the coded `reduce(add, …)`.
+raises.  
 -/
 namespace QM.C07
 open QM
@@ -136,24 +136,15 @@ def prodL (l : List Nat) : Nat := l.foldl (· * ·) 1
 section perm
 variable {K : Type} [Add K] [Mul K] [Zero K] [One K]
 
-/-- `_left_permutation_matrix(position, size_list)` **as coded**: head/tail identity sizes are
-`reduce(add, …)` of the neighbouring sizes. -/
+/-- `_left_permutation_matrix(position, size_list)`: `I_head ⊗ K(size[pos], size[pos-1]) ⊗ I_tail` with the head /
+tail identity sizes `reduce(mul, …)` of the sizes before / after the swapped pair (1 when there are none). -/
 def leftPerm (position : Nat) (sizes : List Nat) : Except Err (DMat K) := do
-  let head := if position < 2 then 1 else sumL (sizes.take (position - 1))
+  let head := if position < 2 then 1 else prodL (sizes.take (position - 1))
   let sp ← match sizes[position]? with | some s => pure s | none => throw Err.index
   -- Python: size_list[position - 1] with position = 0 would wrap to the last element; position ≥ 1 here
   let sq ← match sizes[position - 1]? with | some s => pure s | none => throw Err.index
   let k : DMat K := ⟨sp * sq, sq * sp, Kmat sp sq⟩
-  let tail := if position < sizes.length - 1 then sumL (sizes.drop (position + 1)) else 1
-  return ((DMat.eye head).kron k).kron (DMat.eye tail)
-
-/-- the same with the sizes a vec-permutation needs (products); used in theorems and as the proposed patch -/
-def leftPermFixed (position : Nat) (sizes : List Nat) : Except Err (DMat K) := do
-  let head := prodL (sizes.take (position - 1))
-  let sp ← match sizes[position]? with | some s => pure s | none => throw Err.index
-  let sq ← match sizes[position - 1]? with | some s => pure s | none => throw Err.index
-  let k : DMat K := ⟨sp * sq, sq * sp, Kmat sp sq⟩
-  let tail := prodL (sizes.drop (position + 1))
+  let tail := if position < sizes.length - 1 then prodL (sizes.drop (position + 1)) else 1
   return ((DMat.eye head).kron k).kron (DMat.eye tail)
 
 end perm
@@ -194,10 +185,6 @@ def calcPermLoop {K : Type} [Add K] [Mul K] [Zero K] [One K]
 /-- `calc_permutation_matrix(system_order, size_list)` -/
 def calcPerm {K : Type} [Add K] [Mul K] [Zero K] [One K] (order sizes : List Nat) : Except Err (DMat K) :=
   (calcPermLoop leftPerm (order.length * order.length + 1) order sizes (DMat.eye (prodL sizes))).map (·.1)
-
-def calcPermFixed {K : Type} [Add K] [Mul K] [Zero K] [One K] (order sizes : List Nat) :
-    Except Err (DMat K) :=
-  (calcPermLoop leftPermFixed (order.length * order.length + 1) order sizes (DMat.eye (prodL sizes))).map (·.1)
 
 /-- `convert_list_by_permutation_matrix`: `new[row] = old[col]` for the first `col` with a 1 in that row;
 `none` = the placeholder `True` the code leaves when a row has no 1. -/
